@@ -379,6 +379,8 @@ type Job struct {
 	Dump   bool        `json:"dump,omitempty"`
 	// Args: parameters of shard evaluators (invariants that enumerate inputs on the final state)
 	Args map[string]string `json:"args,omitempty"`
+	// DeadlineSec overrides the pool's per-job deadline (long in-process explorations)
+	DeadlineSec int `json:"deadline_sec,omitempty"`
 }
 
 type TxRes struct {
